@@ -4,6 +4,8 @@ open Pamqp
 
 theorem tieA_toggle :
     Generated.toggleDefault = "True" ∧ Generated.toggleGlobal = "DEPRECATED_RABBITMQ_SUPPORT" ∧
-    Generated.legacyInitial = "False" := by decide
+    Generated.legacyInitial = "False" ∧
+    -- the library never flips the switch itself: only the application's call does (Api.step: only `toggle` writes `legacy`)
+    Generated.toggleSites = [] := by decide
 
 end Pamqp.Props
